@@ -338,15 +338,19 @@ inductive Built where
   | oof
 
 /-- `windowed_iter` advancing its tees: pull `n` items from the chain below and put
-    them into the new stage; an exhausted chain makes it return an empty iterator -/
+    them into the new stage; an exhausted chain makes it return an empty iterator.
+    (A stage that is not waiting for input is not fed; no real stage gets there.) -/
 def prime (src : Src) (fuel : Nat) : Nat → StageSt → List StageSt → Nat → Built
   | 0, st, below, pos => .ok (st :: below) pos
   | n + 1, st, below, pos =>
-    match pullFrom src fuel below pos with
-    | (.item v, below', pos') => prime src fuel n (st.feed (some v)) below' pos'
-    | (.eof, below', pos') => .ok (st.feed none :: below') pos'
-    | (.err e, _, pos') => .err e pos'
-    | (.oof, _, _) => .oof
+    match st.poll with
+    | (.pull, _) =>
+      match pullFrom src fuel below pos with
+      | (.item v, below', pos') => prime src fuel n (st.feed (some v)) below' pos'
+      | (.eof, below', pos') => .ok (st.feed none :: below') pos'
+      | (.err e, _, pos') => .err e pos'
+      | (.oof, _, _) => .oof
+    | _ => .ok (st :: below) pos
 
 /-- the `for … in reversed(self._iter_stack): iterator = callback(iterator, scope)` loop;
     `kinds` in chaining order, `acc` the chain built so far (outermost first) -/
